@@ -1316,6 +1316,32 @@ def runSaveCallHoisted (st : St) (acc : Env) (k : Nat) (names : List String) (kv
     else (.err .outOfDomain, st, acc)
   | Option.none => (.err .outOfDomain, st, acc)
 
+/-- One reading of Python's `==` on the model's values — coarser than identity: the same value, or two list
+    objects / two tuple objects with pairwise identical items (`[1, 2] == list([1, 2])`).  Python's `==` is
+    coarser still (`1 == 1.0 == True`, `0 == False`, an `OrderedDict` equal to a `dict`): values of different
+    TYPE that compare equal are different `V`s here, which is why the counter-model below takes the equality
+    as a PARAMETER.  Used only by the counter-model `doSaveChanged` and its witness. -/
+def pyEqV (heap : List Cell) (a b : V) : Bool :=
+  a == b ||
+  match a, b with
+  | .ref r, .ref s =>
+    match heap[r]?, heap[s]? with
+    | some (.list xs), some (.list ys) => xs == ys
+    | some (.tuple xs), some (.tuple ys) => xs == ys
+    | _, _ => false
+  | _, _ => false
+
+/-- The COUNTER-MODEL of `doSave`: "write only the keys that actually changed" —
+    `context.update({k: v for k, v in d.items() if k not in context or context[k] != v})` with `eq` the
+    reading of `==`.  With `eq` = identity it reads like `doSave`; with any coarser `eq` an explicit save of
+    an equal but distinct object (another object, another type) is not carried out.  Used only by
+    `changed_only_save_counterexample` / `changed_only_save_skips_equal`. -/
+def doSaveChanged (eq : V → V → Bool) (st : St) (d : Env) : St :=
+  doSave st (d.filter fun kv =>
+    match st.ctx.get? kv.1 with
+    | some w => !(eq w kv.2)
+    | Option.none => true)
+
 /-- `pypyr.steps.pyimport.run_step`: `context.pystring_globals_update(namespace)`. -/
 def runPyImport (st : St) (bindings : Env) : St := { st with imps := st.imps.update bindings }
 
